@@ -123,7 +123,11 @@ __xml_namespace__ = "https://dummy.com"
 
 
 def targeted_models() -> List[Tuple[str, str]]:
-    return [("targeted/comprehension-filter", FILTER_MODEL)]
+    # the grouping models are shared with C09 (there the other SDKs are compared with the
+    # Python SDK; here the Python SDK is compared with the reference semantics)
+    from vf.checks import c09
+
+    return [("targeted/comprehension-filter", FILTER_MODEL)] + list(c09.TARGETED)
 
 
 def check_model(chk: harness.Check, name: str, text: str, rng, n_instances: int) -> None:
@@ -287,8 +291,9 @@ def worker(args) -> Dict[str, Any]:
     chk.set_worker_minimums(mins, n_shards)
     budget = chk.wall_budget(150, 900)
     models: List[Tuple[str, str]] = []
+    targeted = targeted_models()
+    models += [m for k, m in enumerate(targeted) if k % n_shards == shard]
     if shard == 0:
-        models += targeted_models()
         models += corpus.small_common()
     for i in range(shard, n_models, n_shards):
         rng = chk.rng("model", i)
